@@ -139,3 +139,49 @@ ASSUMPTIONS = [
 
 def main(tier, seed, only):
     return common.run_property(PID, "harness.C13", tier, seed, "", ASSUMPTIONS, BOUNDS, only=only, extra=paramflow_pass)
+
+
+# ---------------------------------------------------------------- SlidingWindowClassifier (SYMX, dual scenario)
+def sc_sliding(d, window, only_labeled, nops, weights):
+    """after any sequence of fit / partial_fit calls the wrapped classifier is (re)fitted on exactly the last
+    `window` samples it was given (only the labeled ones with only_labeled=True)"""
+    from harness.C19 import make_recording
+    from skactiveml.classifier import SlidingWindowClassifier
+    inner = make_recording(False, d.np)
+    clf = SlidingWindowClassifier(inner, classes=[0.0, 1.0], window_size=window, only_labeled=only_labeled)
+    ref = []
+    for step in range(nops):
+        op = "fit" if step == 0 else d.choose(f"op{step}", ["partial_fit", "fit"])
+        m = d.choose(f"size{step}", [1, 2])
+        lab = [d.choose(f"label{step}_{i}", [-1, 0]) for i in range(m)]   # (which class is irrelevant here)
+        xs = [d.fl(f"x{step}_{i}") for i in range(m)]
+        ws = [d.fl(f"w{step}_{i}", lo=0.0) for i in range(m)] if weights else None
+        X = d.arr([[x] for x in xs], shape=(m, 1))
+        y = d.arr([float("nan") if k < 0 else float(k) for k in lab])
+        sw = d.arr(ws) if weights else None
+        getattr(clf, op)(X, y, sample_weight=sw)
+        new = [(xs[i], float("nan") if lab[i] < 0 else float(lab[i]), ws[i] if weights else None) for i in range(m)
+               if not (only_labeled and lab[i] < 0)]
+        ref = (new if op == "fit" else ref + new)[-window:]
+        got = list(getattr(clf.estimator_, "train_", []))
+        d.prove(len(got) == len(ref), "inner_fit_on_last_window_size_samples:size", info=dict(step=step, op=op, got=len(got), expected=len(ref)))
+        if len(got) == len(ref):
+            for g, e in zip(got, ref):
+                d.prove(d.eq(g[0], e[0]), "inner_fit_on_last_window_size_samples:rows", info=dict(step=step, op=op))
+                d.prove(d.eq(g[1], e[1]), "inner_fit_on_last_window_size_samples:labels", info=dict(step=step, op=op))
+                if e[2] is None or g[2] is None:
+                    d.prove(e[2] is None and g[2] is None, "inner_fit_on_last_window_size_samples:weights", info=dict(step=step, op=op))
+                else:
+                    d.prove(d.eq(g[2], e[2]), "inner_fit_on_last_window_size_samples:weights", info=dict(step=step, op=op))
+    d.witness(True, "ran")
+
+
+from harness.common import dual_harness  # noqa: E402
+
+HARNESSES.append(dual_harness(
+    "sliding_window_classifier", sc_sliding,
+    lambda tier: [dict(window=w, only_labeled=ol, nops=n, weights=wt) for w in (2, 3) for ol in (False, True)
+                  for n in ((2, 3) if tier == "quick" else (2, 3, 4)) for wt in (False, True) if not (tier == "quick" and n == 3 and w == 3)],
+    ["skactiveml.classifier._wrapper:SlidingWindowClassifier.fit", "skactiveml.classifier._wrapper:SlidingWindowClassifier.partial_fit",
+     "skactiveml.classifier._wrapper:SlidingWindowClassifier._add_samples", "skactiveml.classifier._wrapper:SlidingWindowClassifier._fit"],
+    required_witnesses=("ran",), max_paths=40000))
